@@ -385,6 +385,19 @@ fn scenarios_unordered(prop: &str, tier: &str) -> Vec<Scenario> {
                 }
             }
         }
+        // RRT-Connect: the FIRST goal sample (the root setup draws) lies just outside the goal region, the next one
+        // inside: a joined path ends at the goal-tree root, so the root has to satisfy the goal predicate
+        if prop == "C02" {
+            let rim = with_kit!(kit, rim_state(&b));
+            for sm in [1.0, 1e6] {
+                for (wn, w) in [("free", b.world_free()), ("subset0001", b.world_named("subset0001", vec![b.obstacles[0].clone()]))] {
+                    let mut sc = b.scenario(w, b.params(Pk::Connect, sm, 1.5, 0.0), &format!("C02/{kit}/{wn}/RRTConnectx{sm}/first-goal-root-off-the-rim"));
+                    sc.goal_samples = vec![rim.clone(), b.goal_samples[0].clone()];
+                    sc.goal_root = 0;
+                    out.push(sc);
+                }
+            }
+        }
         // RRT*: a step far BELOW the resolution (0.02 = 0.07 L) with a rewiring radius far above it: the
         // extension is a single check step, the choose-parent / rewiring motions are not. The goal sits
         // 0.45 from the start so that short runs return paths whose edges come from choose-parent.
